@@ -653,9 +653,9 @@ func (p *parser) parseCallExpression(function ast.Expression) ast.Expression {
 
 	var ss []string
 	switch function.(type) {
-	case *ast.CallExpression, *ast.FunctionLiteral:
-		// the result of a call, or a literal, is being called: a dot in its
-		// text (f(1.5)(2), fn(x) { return x + 0.5 }(1)) does not separate a path
+	case *ast.CallExpression, *ast.FunctionLiteral, *ast.IndexExpression:
+		// the result of a call, a literal or an element is being called: a dot in its
+		// text (f(1.5)(2), fn(x) { return x + 0.5 }(1), m["a.b"](1)) does not separate a path
 	default:
 		ss = strings.Split(function.String(), ".")
 	}
